@@ -209,6 +209,9 @@ def run(ctx):
 
     _lengths_interpreted(ctx, r4, r6, repo, reg)
 
+    r7 = ctx.rule("C20.R7", "COMPOSE: the merge of requirements and user settings takes every TUPLE for a built-in default and does not length-check it, so a wrong-length override written as a tuple (a specification built in python) is rejected only if the schema's array type refuses tuples; decided as a pair: schema/validator.py's array type check (the classes it accepts) and reduce_paramsets_requirements interpreted on a three-entry tuple override for a two-component parameter set -- at least one of them refuses", "PAIR", floor=1)
+    _tuple_overrides(ctx, r7, repo)
+
     # ------------------------------------------------------------ R5
     none_keys = set()
     for key, (b, c) in sorted(reg.items()):
@@ -230,9 +233,21 @@ def run(ctx):
     # the merge interpreted on a requirement with two None placeholders: refused unless BOTH are configured
     pyhf_excs = set(repo.module("src/pyhf/exceptions/__init__.py").classes)
 
+    def has_none(v):
+        return v is None or (isinstance(v, (list, tuple)) and any(has_none(x) for x in v))
+
+    def lumi_requirement():
+        """the requirement the luminosity modifier's own module declares (interpreted), not a copy of it"""
+        rp_ = reg["lumi"][0].module.funcs.get("required_parset") if "lumi" in reg else None
+        if rp_ is None:
+            raise Undecided("lumi module has no required_parset")
+        ctx.touch(rp_)
+        return Interp({"sample_data": [Poly.atom("n0"), Poly.atom("n1")], "modifier_data": None}, {}, {}).run(A.strip_docstring(rp_.node.body))
+
     def merged(user):
-        req = {"paramset_type": "constrained_by_normal", "n_parameters": Poly.const(1), "is_scalar": True, "inits": None, "bounds": None, "auxdata": None, "sigmas": None, "fixed": False}
-        return Interp({"paramsets_requirements": {"lumi": [dict(req)]}, "paramsets_user_configs": user, "exceptions": Obj("exceptions")}, {}, {}).run(A.strip_docstring(red.node.body))
+        req = lumi_requirement()
+        out_ = Interp({"paramsets_requirements": {"lumi": [dict(req)]}, "paramsets_user_configs": user, "exceptions": Obj("exceptions")}, {}, {}).run(A.strip_docstring(red.node.body))
+        return out_
 
     full_cfg = {"inits": [Poly.atom("I")], "bounds": [[Poly.atom("L"), Poly.atom("H")]], "auxdata": [Poly.atom("A")], "sigmas": [Poly.atom("S")]}
     for lab, user, must_raise in (("no entry for the parameter", {}, True), ("entry gives inits only", {"lumi": {"inits": [Poly.atom("I")]}}, True),
@@ -240,8 +255,11 @@ def run(ctx):
         site = f"{PU}::reduce_paramsets_requirements [None placeholders; {lab}]"
         try:
             out = merged(user)
+            if not must_raise and any(has_none(v) for k, v in out["lumi"].items() if k in ("inits", "bounds", "auxdata", "sigmas")):
+                ctx.violated(r5, red, f"None placeholder [{lab}]", "a fully configured luminosity parameter comes out of the merge with a placeholder None among its settings", found=str({k: v for k, v in out["lumi"].items() if has_none(v)}))
+                continue
             if must_raise:
-                left = sorted(k for k, v in out["lumi"].items() if v is None)
+                left = sorted(k for k, v in out["lumi"].items() if has_none(v) and k in ("inits", "bounds", "auxdata", "sigmas"))
                 ctx.violated(r5, red, f"None placeholder [{lab}]", "a parameter set whose required settings are not all configured is accepted: the placeholder None reaches the model and construction later dies with a TypeError (or the setting is silently missing) instead of a pyhf exception", expected="raise exceptions.InvalidModel", found=f"merged settings with None for {left}")
             else:
                 ctx.holds(r5, site, "accepted")
@@ -599,3 +617,56 @@ def _duplicates_interpreted(ctx, repo, reg, pyhf_excs):
                 ctx.violated(rid, f, f"duplicate names [{lab}]", f"construction fails with a foreign {type(e).__name__} instead of a pyhf exception")
             else:
                 ctx.unrecognised(rid, f, f"[{lab}]", f"not interpretable: {type(e).__name__}: {e}")
+
+
+def _tuple_overrides(ctx, rid, repo):
+    VAL = "src/pyhf/schema/validator.py"
+    red = repo.func(PU, "reduce_paramsets_requirements")
+    ctx.touch(red)
+    pyhf_excs = set(repo.module("src/pyhf/exceptions/__init__.py").classes)
+    # ---- (a) which python classes the schema accepts as a JSON array
+    accepts_tuple, how = None, ""
+    if repo.has_func(VAL, "_is_array_or_tensor"):
+        f = repo.func(VAL, "_is_array_or_tensor")
+        ctx.touch(f)
+        params = [p for p in A.params_of(f.node)]
+        rets = [n for n in ast.walk(f.node) if isinstance(n, ast.Return) and n.value is not None]
+        if len(rets) == 1 and isinstance(rets[0].value, ast.Call) and A.dotted(rets[0].value.func) == "isinstance" and len(rets[0].value.args) == 2 and len(params) == 2 and A.dotted(rets[0].value.args[0]) == params[1]:
+            types = rets[0].value.args[1]
+            elts = types.elts if isinstance(types, ast.Tuple) else [types]
+            names = [A.dotted(e.value if isinstance(e, ast.Starred) else e) or "?" for e in elts]
+            seq_like = {"tuple", "Sequence", "collections.abc.Sequence", "abc.Sequence", "typing.Sequence", "Iterable", "collections.abc.Iterable", "Collection", "collections.abc.Collection", "Sized", "Reversible", "object"}
+            known = {"list"} | seq_like
+            unknown = [n for e, n in zip(elts, names) if n not in known and not (isinstance(e, ast.Starred) and n.endswith(("array_types", "array_subtypes")))]
+            if unknown:
+                accepts_tuple, how = None, f"array type check names classes this rule does not know: {unknown}"
+            else:
+                accepts_tuple = any(n in seq_like for n in names)
+                how = f"isinstance(instance, ({', '.join(names)}))"
+        else:
+            how = "the array type check is not a single isinstance test of the instance"
+    else:
+        how = "schema/validator.py has no _is_array_or_tensor"
+    # is the type check installed for 'array'?
+    installed = any(isinstance(c, ast.Call) and A.call_attr(c) == "redefine" and len(c.args) == 2 and A.const_value(c.args[0]) == "array" and A.dotted(c.args[1]) == "_is_array_or_tensor" for c in ast.walk(repo.module(VAL).tree))
+    if accepts_tuple is False and not installed:
+        accepts_tuple, how = None, "the array type check is not installed with TYPE_CHECKER.redefine('array', ...)"
+    # ---- (b) the merge on a wrong-length tuple override
+    merge_refuses, detail = None, ""
+    try:
+        req = {"paramset_type": "constrained_by_poisson", "n_parameters": Poly.const(2), "is_scalar": False, "inits": (Poly.const(1), Poly.const(1)), "bounds": ((Poly.atom("lo"), Poly.atom("hi")), (Poly.atom("lo"), Poly.atom("hi"))),
+               "fixed": False, "auxdata": (Poly.atom("a0"), Poly.atom("a1")), "factors": (Poly.atom("f0"), Poly.atom("f1"))}
+        user = {"unc": {"inits": (Poly.const(1), Poly.const(1), Poly.const(1))}}
+        out = Interp({"paramsets_requirements": {"unc": [dict(req)]}, "paramsets_user_configs": user, "exceptions": Obj("exceptions")}, {}, {}).run(A.strip_docstring(red.node.body))
+        merge_refuses, detail = False, f"accepted with inits of length {len(out['unc']['inits'])} for 2 components"
+    except RaisedInFragment as e:
+        merge_refuses, detail = e.exc_name.split(".")[-1] in pyhf_excs, f"raise {e.exc_name}"
+    except (Undecided, KeyError, TypeError, AttributeError) as e:
+        detail = f"not interpretable: {type(e).__name__}: {e}"
+    site = f"{VAL}::_is_array_or_tensor x {PU}::reduce_paramsets_requirements [tuple override of the wrong length]"
+    if accepts_tuple is False or merge_refuses is True:
+        ctx.holds(rid, site, ("the schema refuses tuples as arrays (" + how + ")" if accepts_tuple is False else "the merge refuses it: " + detail))
+    elif accepts_tuple is True and merge_refuses is False:
+        ctx.violated(rid, red, "wrong-length override written as a tuple", "a specification built in python whose override is a TUPLE of the wrong length passes the schema (tuples count as arrays: " + how + ") and the merge takes tuples for built-in defaults without checking their length (" + detail + "): the model is built with a parameter count that disagrees with its slices", expected="InvalidSpecification from the schema or InvalidModel from the merge", found="accepted")
+    else:
+        ctx.unrecognised(rid, red, "tuple override", f"schema side: {how or accepts_tuple}; merge side: {detail or merge_refuses}")
